@@ -247,7 +247,7 @@ class C11(Prop):
         # round 6
         "sxp_objective_is_neg_loglik", "sxp_rate_is_maximiser", "sxp_rate_closed_form", "weibull_binned_objective_is_neg_loglik", "weibull_cdf_is_distribution_function",
         "gev_fit_post", "gev_objective_is_neg_loglik", "gev_gradient_is_derivative", "sxp_binned_fit_post", "sxp_binned_objective_is_neg_loglik",
-        "gamma_shape_likelihood_equation", "gamma_engine_fixed_point_is_stationary_partial", "gev_censored_objective_is_neg_loglik", "sxp_shape_likelihood_equation")]
+        "gamma_shape_likelihood_equation", "gamma_engine_fixed_point_is_stationary_partial", "gev_censored_objective_is_neg_loglik", "sxp_shape_likelihood_equation", "gev_fit_scale_positive", "gev_censored_gradient_is_derivative", "plot_number_format_rounds_half_even")]
     claimed = True
     technique = ("Lean 4 proof over an executable line-by-line model (numeric class: Float for the bit-exact differential run, Q/R for the theorems) "
                  "+ bit-exact correspondence with the ASan/UBSan-built C code + exact-rational / log-likelihood property monitors")
@@ -271,7 +271,8 @@ class C11(Prop):
                   "status, <= max_iterations rows and <= brack_maxiter rounds per row, fx = f(x) on return, bracket post-condition, brent never worse than its start, bisection keeps the root "
                   "bracketed and converges for roots of either sign (8354c02); descent holds unless a brent() call returns above bracket()'s middle point (and a counter-example shows it can). "
                   "The hand model is tied to the working tree by a differential run (bit-identical on the clean tree; integers/copies exact, computed doubles to 1e-12/1e-7 relative) over histogram "
-                  "histories, every closed-form/Newton/CG fit, the solvers on shared objective families (quadratic, Rosenbrock, exp-linear, log-barrier, needle, Weibull/gamma/stretched-exponential "
+                  "histories, every closed-form/Newton/CG fit (incl. GEV complete/censored and the binned Weibull/stretched-exponential/gamma fits; gev_func, gev_gradient and esl_sxp_cdf also "
+                  "evaluated point-wise in every branch), the solvers on shared objective families (quadratic, Rosenbrock, exp-linear, log-barrier, needle, Weibull/gamma/stretched-exponential "
                   "negative log-likelihoods of generated data) incl. the whole ESL_MIN_DAT table (iterations, bracket/brent rounds, function evaluations, fx trace); property monitors (exact rational bin "
                   "membership, queries vs sorted raw data, local pattern search of an independently evaluated log-likelihood around every optimiser result incl. binned fits, location = min x, recovery on "
                   "exact quantile grids, plot tables summing to n, p-values in [0,1]) report concrete failing inputs.")
@@ -282,7 +283,9 @@ class C11(Prop):
                   "equal digamma/trigamma, and concavity of the profile, are not. Stretched-exponential shape in tau and GEV likelihood shape (concavity): not proved. "
                   "esl_sxp_FitCompleteBinned is modelled (esl_sxp_cdf through the model's IncompleteGamma, NaN when it cannot be evaluated - repaired in 8c29128; objective = -sum obs*log(cdf "
                   "differences), documented status/location) and compared exactly. "
-                  "Not modelled (monitors only): esl_histogram_Write/Print and the number formatting of the plots, esl_gumbel/esl_exp tail fits. "
+                  "esl_histogram_Plot's observed data set is modelled byte for byte (Stats/Format.lean: C99 %f of a binary64 value = its exact dyadic value rounded half-even to 6 decimals; "
+                  "rows, trailing y=0 row, '&' line; FNV hash of the text compared exactly). Not modelled (monitors only): esl_histogram_Write/Print (ASCII bars), %g of the expected counts, "
+                  "the text of PlotSurvival/PlotQQ, esl_gumbel/esl_exp tail fits. "
                   "Log-normal sigma uses the n-1 variance, not the ML n; libm and libc qsort are trusted. "
                   "Genuine defects found while building this check and repaired in /repo: b44f0f8 7d6f911 fd84f7f bad2f4e 2487976 935fded 9b72a6e 6f20587 6da6a89 8354c02 6815f41 8c29128; their witnesses are corpus regression cases.")
     diverge_is_violation = True
@@ -300,7 +303,8 @@ class C11(Prop):
                    "esl_gev_FitComplete FitCensored (fitting_engine gev_func gev_gradient esl_gev_logpdf esl_gev_logcdf; log1p = the libm symbol on the Float side, log(1+x) over R); "
                    "esl_min_ConjugateGradientDescent numeric_derivative bracket brent (incl. ESL_MIN_DAT); esl_root_Bisection NewtonRaphson",
                    "esl_sxp_FitCompleteBinned (esl_sxp_cdf, sxp_complete_binned_func, esl_stats_IncompleteGamma P(a,x)); static gev_func/gev_gradient evaluated directly (op gevobj)",
-                   "not modelled (implementation-side monitors only): histogram Write/Print (text formatting), allocation failure paths"]
+                   "the text of esl_histogram_Plot's first data set (%f rows) is modelled exactly",
+                   "not modelled (implementation-side monitors only): histogram Write/Print (text formatting), %g rows of expected counts, allocation failure paths"]
     rule = ("cases = histogram operation histories (create, batches of Adds that force repeated growth below and above, edge values +-1 ulp, ties, non-finite and out-of-int-range values, "
             "rank/tail/censoring queries, Add after finishing) and data sets (exact quantile grids, the library's own samplers, ties, outliers, scales 1e-6..1e6, censoring 0..0.9, degenerate sets) "
             "run through every fit; non-trivial = at least one ok answer and no fault; distinct by output trace")
@@ -393,7 +397,7 @@ class C11(Prop):
             return math.isfinite(fa) and math.isfinite(fb2) and abs(fa - fb2) <= 1e-4 * max(abs(fa), abs(fb2)) + 1e-9
         if len(wa) != len(wb): return False
         rel = 1e-7 if name in ("fit", "hexpfit") else 1e-12
-        exact_keys = ("xmin", "xmax", "first", "last", "hash", "w")      # copies of input values: exact
+        exact_keys = ("xmin", "xmax", "first", "last", "hash", "w", "txt")      # copies of input values: exact
         for x, y in zip(wa, wb):
             if x == y: continue
             px, ex, vx = x.rpartition("="); py, ey, vy = y.rpartition("=")
